@@ -212,6 +212,26 @@ def refute(tier, seed, emit):
                 emit.violation(b, w, 'clause %s violated: labels %s' % (b, out[:, 0].tolist()))
         if emit.full:
             return
+    # two-column input: every pair of short columns (so a wrap-free column before / after a column with wraps)
+    ml2 = 3 if tier == 'quick' else 4
+    emit.scope('every pair of columns of length 2..%d over the 5-value alphabet (multi-column independence)' % ml2, exhaustive=True)
+    import itertools as _it
+    for n in range(2, ml2 + 1):
+        cols = list(_it.product(ALPHA, repeat=n))
+        for ca, cb in _it.product(cols, repeat=2):
+            ph = np.array([ca, cb]).T
+            emit.case(('2col', ca, cb), nontrivial=True, contract='get_cycle_vector')
+            w = {'kind': 'cycle_vector', 'phase': ph.tolist(), 'phase_step': step, 'return_good': False, 'mask': None}
+            try:
+                out = _run(ph, step, False)
+            except Exception as ex:
+                emit.violation('detection-never-fails:%s' % type(ex).__name__, w, 'get_cycle_vector raised %s: %s' % (type(ex).__name__, ex))
+                continue
+            for cc in range(2):
+                for b in native_check(ph[:, cc], out[:, cc], step, False, None):
+                    emit.violation(b + ':multi-column', w, 'clause %s violated in column %d: labels %s' % (b, cc, out[:, cc].tolist()))
+        if emit.full:
+            return
     # other phase_step values, multi-column input, long synthetic phases
     r = rng(seed, 12)
     nlong = 40 if tier == 'quick' else 400
